@@ -3,6 +3,13 @@
  * (spec/sha256_spec.h: spec_sha256_round, spec_sha256_sched, K) on the harness's inputs and records every
  * intermediate value the cut-point lemmas refer to.
  */
+/* specification-side text: no safety obligations are generated for it (they only enlarge the solver's goal set) */
+#pragma CPROVER check push
+#pragma CPROVER check disable "bounds"
+#pragma CPROVER check disable "pointer"
+#pragma CPROVER check disable "pointer-overflow"
+#pragma CPROVER check disable "conversion"
+#pragma CPROVER check disable "div-by-zero"
 #include "sha256_spec.h"
 uint32_t g_sha_S[65][8];
 uint32_t g_sha_W[64];
@@ -71,3 +78,4 @@ sha_ghost_run(const uint32_t H[8], const uint8_t M[64])
 	for (int k = 0; k < 8; k++)
 		g_sha_H1[k] = H[k] + g_sha_S[64][k];
 }
+#pragma CPROVER check pop
